@@ -54,7 +54,7 @@ class Prop(BaseProp):
                    "base layout additionally checked against the reference entry model"]
     HEADLINE = ["layout_pairs_compared", "crlf_pairs", "comments_inserted", "single_gap_insertions"]
 
-    NR = {"quick": 400, "thorough": 5000}
+    NR = {"quick": 1500, "thorough": 15000}
 
     def n_cases(self, tier):
         return self.NR[tier] + (0 if tier == "quick" else 20 * len(SHAPES))
